@@ -296,6 +296,8 @@ def run_config(cfg, history_dir=None, callback_fault=None):
             opt.set_iteration_callback(cb)
             try:
                 result = opt.optimise(objective)
+                for _ in range(int(cfg.get('runs', 1)) - 1):   # the same optimiser instance run again
+                    result = opt.optimise(objective)
                 rec['outcome'] = 'ok'
                 rec['result'] = [{'id': g.descriptive_id, 'verified': bool(verifier(g))} for g in result]
                 rec['result_is_archive_graphs'] = [any(g is i.graph for i in opt.generations.best_individuals) for g in result]
@@ -384,6 +386,26 @@ def strict_rule_config(rng, optimiser='evo'):
                 'operator_attempts': rng.choice([3, 5]), 'mutation_prob': 1.0, 'max_depth': 5,
                 'num_of_generations': rng.choice([3, 4]), 'early_stopping_iterations': None, 'diversity_check': -1})
     cfg['objective'] = {'metrics': ['neg_size'], 'multi': False}
+    return cfg
+
+
+def rerun_config(rng):
+    """one optimiser instance, optimise() called twice: archive and history must stay consistent"""
+    cfg = random_config(rng, optimiser=rng.choice(['random_search', 'random_mutation', 'random_search', 'pop_random_mutation']), multi=False)
+    cfg.update({'runs': 2, 'keep_n_best': rng.choice([1, 2, 3]), 'num_of_generations': rng.choice([3, 5]),
+                'early_stopping_iterations': None})
+    cfg['objective'] = {'metrics': [rng.choice(['size', 'balance', 'label'])], 'multi': False}
+    cfg.pop('rule', None)
+    return cfg
+
+
+def failing_start_config(rng):
+    """random search whose very first evaluation (the initial individual) fails while later ones work"""
+    cfg = random_config(rng, optimiser=rng.choice(['random_search', 'random_mutation']), multi=rng.random() < 0.3)
+    kind = rng.choice(['raise', 'none', 'nan'])
+    cfg['objective']['faults'] = {'by_index': {'0': kind}}
+    cfg.update({'num_of_generations': rng.choice([3, 4, 6]), 'initial': rng.choice(['single', 'chain'])})
+    cfg.pop('rule', None)
     return cfg
 
 
